@@ -8,6 +8,22 @@ CHECKS = {
    text="Batching rules (group/batch caps, immediate placement, decode round trip, greedy boundaries) are TLC invariants checked over every push/non-push pattern (reduced constants to length 14, real constants to 14); every pattern to length 11 (quick) / 15 (thorough) plus random sequences over all span operations are replayed on the real Span::new and compared in every field, and the span hash must be HashElems of the specification's groups; opcode table of the docs compared with Operation::op_code.",
    note="Trusted: miden-crypto RPO primitives (hash_elements / merge_in_domain) as the definition of the hash; TLC; the docs as source of the rules.",
    tech="TLA+ spec (SpanBatch, Mast) model-checked with TLC; TLC-generated behaviours replayed on the implementation", ref="DESIGN.md §4 C08"),
+ "C05": dict(cat="model_checking",
+   text="Instruction semantics are an explicit TLA+ specification (Masm.tla over the limb arithmetic of Felt.tla / U32.tla, written from the instruction reference). TLC (a) proves on the mini field HB=2 that the limb operators are the field / integer functions (all 241^2 pairs, all 4-bit u32 triples) and that the stack keeps depth >= 16 / LIFO under all instruction words, (b) enumerates every instruction variant x boundary operand tuples x initial depths and samples random instruction sequences, each with the predicted full stack or failure (kind + error code); every behaviour is replayed on the real assembler + VM in a release and an overflow-checked build.",
+   note="Trusted: TLC, the instruction reference as written down in Masm.tla; operand combinations the reference calls undefined are not generated; stacks are compared up to trailing zeros below depth 16.",
+   tech="TLA+ instruction-level spec; TLC-enumerated / simulated behaviours replayed on assembler+VM (spec -> impl conformance)", ref="DESIGN.md §4 C05"),
+ "C06": dict(cat="model_checking",
+   text="Big-step rules for if/else, while, repeat, exec (own locals frame) with Fail(NotBinary) at the three decision points (MasmFlow.tla); TLC checks the laws repeat.n = n copies, exec = pasted body, if = selected branch on the spec, enumerates every program shape to nesting depth 2 (incl. identical / equivalent branches) x every decision tape over {0,1,2} and random depth-3 shapes; each predicted final stack / failure is replayed on the real assembler + VM in two build profiles.",
+   note="Trusted: TLC, flow_control.md / code_organization.md as formalised; decisions are fed through the advice tape so that the final stack is the executed path.",
+   tech="TLA+ structured-semantics spec; exhaustive small-scope behaviours replayed on the implementation", ref="DESIGN.md §4 C06"),
+ "C14": dict(cat="model_checking",
+   text="Cursor model of the step iterator (StepIter.tla) model-checked over all Next/Back words; every word is replayed on the real VmStateIterator and every reported state is compared with row t of the trace and the forward-pass state; each program is executed under 18 configurations (expected-cycle hints, tracing, debug assembly with decorators, execute / execute_iter) and program hash, outputs, cycles, padded length and a digest of the whole main trace must coincide; clk must push its row's clock.",
+   note="Trusted: TLC; main trace of the reference configuration as 'the trace'. Known finding KF-C14-overflow is reported as KNOWN-FINDING (see known_findings.json).",
+   tech="TLA+ cursor model; model-generated walks replayed; multi-configuration trace equality", ref="DESIGN.md §4 C14"),
+ "C15": dict(cat="model_checking",
+   text="CycleLimit.tla: safety (clock never passes the limit, exact success condition, no step after the limit) and liveness (every program, incl. a non-terminating one, stops) checked by TLC under weak fairness; the model's closed form generates, for every corpus program, limits n-2..n+2 and others x expected-cycles hints, and the option-set acceptance table; all replayed on the real processor (error payload = the limit, reported max_cycles = the given one).",
+   note="Trusted: TLC; the cycle count n of a terminating program is measured by an unlimited run of the implementation.",
+   tech="TLA+ safety + liveness model checked with TLC; model-generated limits replayed", ref="DESIGN.md §4 C15"),
 }
 
 NOT_APPLICABLE = {
